@@ -200,6 +200,32 @@ func loopbackOptions() {
 	}
 }
 
+// ownership: what a constructor returns belongs to the caller (no shared
+// tables, no cached messages): the first result is overwritten in place, the
+// constructor called again with the same arguments.
+func ownership() {
+	mk := []struct {
+		name string
+		f    func() []byte
+	}{
+		{"NoteOn", func() []byte { return midi.NoteOn(0, 0, 0) }}, {"NoteOn", func() []byte { return midi.NoteOn(15, 127, 127) }},
+		{"NoteOff", func() []byte { return midi.NoteOff(0, 60) }}, {"NoteOffVelocity", func() []byte { return midi.NoteOffVelocity(1, 2, 3) }},
+		{"PolyAfterTouch", func() []byte { return midi.PolyAfterTouch(0, 0, 0) }}, {"ControlChange", func() []byte { return midi.ControlChange(0, 0, 0) }},
+		{"ControlChange", func() []byte { return midi.ControlChange(0, 123, 0) }}, {"ProgramChange", func() []byte { return midi.ProgramChange(0, 0) }},
+		{"AfterTouch", func() []byte { return midi.AfterTouch(0, 0) }}, {"Pitchbend", func() []byte { return midi.Pitchbend(0, 0) }},
+		{"SPP", func() []byte { return midi.SPP(0) }}, {"MTC", func() []byte { return midi.MTC(0) }}, {"SongSelect", func() []byte { return midi.SongSelect(0) }},
+		{"Tune", func() []byte { return midi.Tune() }}, {"Start", func() []byte { return midi.Start() }}, {"Stop", func() []byte { return midi.Stop() }},
+		{"Continue", func() []byte { return midi.Continue() }}, {"TimingClock", func() []byte { return midi.TimingClock() }},
+		{"Activesense", func() []byte { return midi.Activesense() }}, {"Reset", func() []byte { return midi.Reset() }}, {"Tick", func() []byte { return midi.Tick() }},
+	}
+	for _, m := range mk {
+		ctx.Eval()
+		if d := engine.Owned(m.f); d != "" {
+			report("constructor:result-not-owned:"+m.name, m.name, nil, m.f(), d)
+		}
+	}
+}
+
 func report(sig, ctor string, args []int, m midi.Message, what string) {
 	if ctx.SigCount(sig) < 10 {
 		ctx.Violation(sig, map[string]interface{}{"kind": "ctor", "constructor": ctor, "args": args, "bytes": engine.Hex(m), "what": what})
@@ -391,7 +417,7 @@ func main() {
 		bend(lp, bendCh[j], ctx.Pick(16, 1))
 	})
 	// system common
-	ctx.Jobs("loopback-options", 1, func(int) { loopbackOptions() })
+	ctx.Jobs("loopback-options", 1, func(int) { loopbackOptions(); ownership() })
 	ctx.Jobs("syscommon", 4, func(j int) {
 		lp := newLoop()
 		for p := j; p < 65536; p += 4 {
